@@ -229,6 +229,10 @@ class ReadRun(object):
                 return index, summary, now
         return None
 
+    def stream_closed_behind_callers_back(self):
+        """A stream handed in by the caller is opened and closed by the caller: cutplace must leave it open."""
+        return (not isinstance(self._source, str)) and bool(getattr(self._source, "closed", False))
+
     def counters(self):
         if self.reader is None:
             return None
